@@ -117,6 +117,7 @@ def main():
 
         obligations = discharged = 0
         lemma_canary_total = 0
+        deep_canary_total = 0
         stability = []
         samples, fn_table, backends, smt_ms_total, kani_time = [], [], set(), 0, 0.0
         expected = load_json(os.path.join(HERE, 'contracts', 'expected_obligations.json'), {})
@@ -204,6 +205,16 @@ def main():
                 for m in in_filter:
                     if m['qual'] not in hit:
                         undecided.append('unit %s: VACUITY canary: assert(false) at the top of %s was NOT refuted (contradictory precondition or inconsistent assumed contracts)' % (u, m['qual']))
+                # deep canaries: the end of every loop body that carries a proof script (//@loopend) must be reachable too
+                c_lines = open(c['gen_path']).read().split('\n') if c.get('gen_path') and os.path.exists(c['gen_path']) else []
+                all_hit = {e['gen_line'] for e in c['errors'] if e['message'].startswith('assertion failed') and e.get('gen_line')}
+                for ln_no, ln in enumerate(c_lines, 1):
+                    if 'DEEP-CANARY' in ln:
+                        deep_canary_total += 1
+                        m_in = verus._fn_of_line(c['metas'], ln_no)
+                        if m_in is not None and m_in in [mm for mm in c['metas']] and (filt is None or m_in.get('qual') in filt):
+                            if ln_no not in all_hit:
+                                undecided.append('unit %s: VACUITY deep canary: assert(false) at the end of a loop body of %s was NOT refuted (%s)' % (u, m_in.get('qual'), ln.strip()[-30:]))
                 # lemmas with a `requires` clause: the same canary (a contradictory lemma precondition would make every use of it vacuous)
                 hit_lines = [e['gen_line'] for e in c['errors'] if e['message'].startswith('assertion failed') and e.get('gen_line')]
                 for name, l0, l1 in c.get('lemma_canaries', []):
@@ -350,7 +361,7 @@ def main():
                 'assumption_markers_in_generated_files': ext_scan,
                 'rewrite_rules': [list(x) for x in extract.rule_table()],
                 'stability_runs': stability,
-                'canary': 'assert(false) injected at the top of every function under contract and of every lemma that has a requires clause must be refuted (run on every check; %d lemma canaries this run)' % lemma_canary_total,
+                'canary': 'assert(false) injected at the top of every function under contract and of every lemma that has a requires clause must be refuted (run on every check; %d lemma canaries, %d deep canaries at the ends of loop bodies with proof scripts this run)' % (lemma_canary_total, deep_canary_total),
                 'repo_head': head, 'repo_dirty_src': bool(dirty),
                 'undecided': undecided, 'known_findings_reported': known_lines,
             },
